@@ -1,5 +1,6 @@
 import Muxide.Spec.Framing
 import Muxide.Spec.Reader
+import Muxide.Model.F64
 /-
   Muxide.Spec.Expect — what the properties expect of a file, computed from the *submitted*
   input only (never from the model): MP4 framing of a frame, civil calendar, language unpacking,
@@ -57,5 +58,16 @@ def isoOfUnix (secs : Nat) : String :=
 
 /-- ISO-639-2/T unpacking of the 15-bit mdhd language field -/
 def unpackLang (n : Nat) : List Nat := [n / 1024 % 32 + 0x60, n / 32 % 32 + 0x60, n % 32 + 0x60]
+
+/-- C06: the double `x` (a number of seconds) is within one tick of `n` ticks of the 90 kHz clock, exactly:
+    `x = a/b`, and `|a·90000/b − n| ≤ 1  ⇔  |a·90000 − n·b| ≤ b` -/
+def within1Tick (x : Muxide.F64) (n : Nat) : Bool :=
+  match x with
+  | Muxide.F64.fin false mant e =>
+    let (a, b) := F64.frac mant e
+    let l := a * 90000
+    let r := n * b
+    (if l ≥ r then l - r else r - l) ≤ b
+  | _ => false
 
 end Muxide.Spec
